@@ -216,6 +216,21 @@ def outer_fn(pth):
     return pth.split("::{closure")[0]
 
 
+def is_callback_type(ty):
+    """a caller-provided callback: a type parameter (`F`), a closure type, `impl FnMut(..)` / `dyn FnMut(..)` (possibly behind a reference)"""
+    import re
+    t = ty.strip()
+    while t.startswith("&"):
+        t = t[1:].strip()
+        if t.startswith("mut "):
+            t = t[4:].strip()
+    if t.startswith("{closure@"):
+        return True
+    if re.match(r"^[A-Z][A-Za-z0-9_]*$", t):          # a generic type parameter
+        return True
+    return re.match(r"^(impl |dyn )(for<[^>]*> )?(std::ops::)?(Fn|FnMut|FnOnce)\(", t) is not None
+
+
 def rule(ctx, rep, prop, prefixes, table=None):
     """LC: every function / closure whose path starts with one of `prefixes` carries only the reviewed state
     `table` = {path: {name: reason}}; by default allowed: the diagnostics vector (append-only, checked by the effect rules),
@@ -237,7 +252,7 @@ def rule(ctx, rep, prop, prefixes, table=None):
         allowed = table.get(outer_fn(pth), [])
         used = {}
         for kind, name, ty in state_of(facts, pth):
-            default_ok = (ty in DEFAULT_OK_TYPES) or (ty is not None and (ty == "F" or ty.startswith("{closure@")))
+            default_ok = (ty in DEFAULT_OK_TYPES) or (ty is not None and is_callback_type(ty))
             entry = None
             if not default_ok:
                 for e in allowed:
